@@ -225,9 +225,16 @@ def run_case(case, keep_log=False):
             budget = 2_000_000 + 3000 * bound
             T_ = float(ts_t[-1])
 
-            def online(k, ta, tb):
+            seen = {"n": 0, "last": None}
+
+            def online(_k, ta, tb):
                 # invariants that are cheapest to judge while the run proceeds (and that bound a runaway loop):
-                # every third request opens a trial (a, b)
+                # every third (distinct consecutive) request opens a trial (a, b)
+                if seen["last"] == (ta, tb):
+                    return
+                seen["last"] = (ta, tb)
+                k = seen["n"]
+                seen["n"] = k + 1
                 if k % 3 == 0:
                     if k // 3 > bound:
                         raise Online(Violation("too_many_trials", {"trials": k // 3, "bound": bound}, k // 3))
@@ -249,13 +256,13 @@ def run_case(case, keep_log=False):
                                   {"msg": str(e)[:160], "trials_so_far": len(R.errs),
                                    "last_requests": [[fx(x) for x in tr[:2]] for tr in rec.trace[-3:]],
                                    "T": fx(float(ts_t[-1]))}, "run")
-                    if isinstance(e, AssertionError) and "nans" in str(e) and scheme_diverged(rec.trace, len(R.errs)):
+                    if isinstance(e, AssertionError) and "nans" in str(e) and scheme_diverged(stubs.steps_of(rec.trace), len(R.errs)):
                         # the library's documented reaction to a diverging scheme (overflow -> nan), confirmed by
                         # re-executing the recorded schedule with public single-step calls: not a controller defect
                         probes["scheme_diverged"] = 1
                         raise Diverged()
                     raise v
-            return ys, rec.trace, R, bound
+            return ys, stubs.steps_of(rec.trace), R, bound
 
         def scheme_diverged(trace, n_done):
             sde_m = stubs.make_sde(spec, case["dtype"])
